@@ -201,6 +201,100 @@ def r1c_inferred_types(ctx):
         ctx.note("accepted/inferred disagreement in %d cells, e.g. %s" % (len(dis), dis[:4]))
 
 
+GAMMA = {"Number": {"Number"}, "String": {"Str"}, "Bool": {"Bool"}, "Array": {"Array"}, "Null": {"Null"},
+         "ProcessCommand": {"Host"}, "ProcessResult": {"Host"}, "Dynamic": {"Str", "Number", "Bool", "Array", "Host", "Null"}}
+KIND_TO_STATIC = {"Number": "Number", "Str": "String", "Bool": "Bool", "Array": "Array", "Null": "Null"}
+
+
+def runtime_result_kinds(ctx):
+    """{(op, a, b): set of Value kinds eval_expr can return for operand kinds a, b} (finite-domain partial evaluation)."""
+    ev = ctx.need("runtime::Runtime::eval_expr")
+    vals = ["Str", "Number", "Bool", "Array", "Host", "Null"]
+    out = {}
+    for op in ctx.lib.variants("syntax::parser::BinaryOp"):
+        for a in vals:
+            for b in vals:
+                known = {"expr": "Binary", "op": op}
+                if op in ("And", "Or"):
+                    known.update({"l": a, "r": b})
+                else:
+                    known.update({"_.0": a, "_.1": b})
+                res = set()
+                for p_ in peval(ev, 0, known):
+                    n_ = sum(1 for e in p_["events"] if e[0] == "call" and e[1].endswith("eval_expr"))
+                    if n_ < 2 and not (op in ("And", "Or") and n_ >= 1):
+                        continue
+                    if p_["end"] != "return":
+                        continue
+                    aggs = [e for e in p_["events"] if e[0] == "agg"]
+                    rs = [e[2] for e in aggs if e[1].endswith("Result")]
+                    vv = [e[2] for e in aggs if e[1].endswith("runtime::Value")]
+                    if rs and rs[-1] == "Ok" and vv:
+                        res.add(vv[-1])
+                out[(op, a, b)] = res
+    return out
+
+
+def unary_infer_table(ctx):
+    f = ctx.need("resolver::Resolver::infer_expr_type")
+    out = {}
+    for op in ("Not", "Minus"):
+        for t in TYPES:
+            res = set()
+            for p_ in peval(f, 0, {"expr": "Unary", "op": op, "t": t}):
+                if p_["end"] != "return":
+                    continue
+                if not any(e[0] == "call" and e[1].endswith("infer_expr_type") for e in p_["events"]):
+                    continue
+                aggs = [e for e in p_["events"] if e[0] == "agg"]
+                vt = [e[2] for e in aggs if e[1].endswith("ValueType")]
+                opt = [e[2] for e in aggs if e[1].endswith("Option")]
+                if opt:
+                    res.add("None" if opt[-1] == "None" else (vt[-1] if vt else "?"))
+            out[(op, t)] = res
+    return out
+
+
+def r1d_inferred_type_is_sound(ctx):
+    """Two ways the inferred type of an *accepted* operator expression makes the checker reject valid programs:
+     - no type at all (None): whatever encloses the expression then reports a mismatch;
+     - a type narrower than what the runtime can produce for operands of the accepted static types (`dynamic add 1` typed
+       number although `"a" add 1` is the string "a1"): a use that is right for the other result is rejected.
+    The inferred type must be defined for every accepted cell and be either dynamic or the one kind the runtime yields."""
+    acc = binary_tables(ctx) or {}
+    inf = infer_table(ctx)
+    rt = runtime_result_kinds(ctx)
+    n = 0
+    for (op, l, r), res in sorted(inf.items()):
+        if not (acc.get(op) or {}).get((l, r)) or len(res) != 1:
+            continue
+        t = next(iter(res))
+        n += 1
+        if t == "None":
+            ctx.bad("infer|accepted-untyped|%s|%s,%s" % (op, l, r), "src/resolver.rs", "`%s %s %s` is accepted but has no inferred type: an enclosing operator, condition or method call then rejects a valid program" % (l.lower(), op.lower(), r.lower()))
+            continue
+        kinds = set()
+        for a in GAMMA[l]:
+            for b in GAMMA[r]:
+                kinds |= rt.get((op, a, b), set())
+        statics = {KIND_TO_STATIC.get(k, "Host") for k in kinds}
+        if not kinds or t == "Dynamic" or statics == {t}:
+            ctx.ok("infer|sound|%s|%s,%s" % (op, l, r), "src/resolver.rs", "%s covers %s" % (t, sorted(kinds)))
+        else:
+            ctx.bad("infer|too-narrow|%s|%s,%s|%s" % (op, l, r, t), "src/resolver.rs", "`%s %s %s` is typed %s, but for operands of these static types the runtime can return %s: a later use that is valid for the other result (arithmetic on a sum of numbers, a string method on a concatenation) is rejected" % (l.lower(), op.lower(), r.lower(), t.lower(), sorted(statics)))
+    sets = single_operand_sets(ctx)
+    ut = unary_infer_table(ctx)
+    for op, rule in (("Not", "unary-not"), ("Minus", "unary-minus")):
+        for t in sorted(sets.get(rule, ())):
+            res = ut.get((op, t), set())
+            n += 1
+            if res and "None" not in res and len(res) == 1:
+                ctx.ok("infer|unary|%s|%s" % (op, t), "src/resolver.rs", "%s %s : %s" % (op.lower(), t.lower(), sorted(res)[0]))
+            else:
+                ctx.bad("infer|accepted-untyped|%s|%s" % (op, t), "src/resolver.rs", "`%s <%s>` is accepted but infer_expr_type gives it no type (%s): `(%s a) %s ..` inside a function whose parameter a is dynamic is rejected although it is valid" % (op.lower(), t.lower(), sorted(res) or "no result", op.lower(), "and true" if op == "Not" else "times 2"))
+    ctx.floor("accepted operator cells with an inferred type", n, 100)
+
+
 def single_operand_sets(ctx):
     out = {}
     for fid in (CE, "resolver::Resolver::check_boolean_expr", "resolver::Resolver::expect_member_string_arg", "resolver::Resolver::expect_member_number_arg"):
@@ -745,7 +839,35 @@ def r6_scope_of_a_declaration(ctx):
     r4c_initialiser_sees_the_old_scope(ctx)
 
 
-RULES = [("C09-R1", r1a_typing_tables), ("C09-R1b", r1b_accepted_is_evaluable), ("C09-R1c", r1c_inferred_types), ("C09-R2", r2_rule_presence), ("C09-R3", r3_context_per_function), ("C09-R4", r4_declared_type_follows_latest_declaration), ("C09-R5", r5_every_child_is_checked), ("C09-R6", r6_scope_of_a_declaration)]
+def r7_fixpoints_run_to_the_end(ctx):
+    """Return types of functions that call each other are inferred by iterating until nothing changes.  The "changed" flag of
+    such a loop is sticky within a round: it is reset once, raised by constant assignments, and never overwritten with a
+    computed value (which would let the last element of a round decide whether the iteration continues).  Checked for every
+    fixpoint flag in the resolver."""
+    from ..flow import fixpoint_flags
+    n = 0
+    for fn in [f for f in ctx.lib.fns.values() if f.file == "src/resolver.rs"]:
+        for l, info in fixpoint_flags(fn):
+            n += 1
+            ctx.touch(fn)
+            name = fn.locals[l]["name"] or "_%d" % l
+            computed = [(b, k) for (b, k, c, v) in info if not c]
+            short = parent_fn(fn.id).split("::")[-1]
+            if computed:
+                ctx.bad("fixpoint-flag|%s|overwritten" % short, fn.where(computed[0][0]), "the fixpoint flag `%s` of %s is assigned a computed value inside the loop: a later element that did not change resets what an earlier one raised, so the iteration stops before the inferred types are stable (a function whose type depends on a chain of later-defined functions stays `dynamic`, and uses that contradict its real type are accepted)" % (name, short))
+            else:
+                ctx.ok("fixpoint-flag|%s|sticky" % short, fn.where(info[0][0]), "`%s` is only reset to false and raised to true" % name)
+    ctx.floor("fixpoint flags in the resolver", n, 1)
+
+
+def r8_static_tables_are_the_documented_ones(ctx):
+    """The checker types method calls from the built-ins' name / arity / return-type tables: a wrong entry rejects valid
+    programs and accepts invalid ones (shared with C01-R5, which compares the tables with the documented signatures)."""
+    from .c01 import r5_builtin_tables
+    r5_builtin_tables(ctx)
+
+
+RULES = [("C09-R1", r1a_typing_tables), ("C09-R1b", r1b_accepted_is_evaluable), ("C09-R1c", r1c_inferred_types), ("C09-R1d", r1d_inferred_type_is_sound), ("C09-R2", r2_rule_presence), ("C09-R3", r3_context_per_function), ("C09-R4", r4_declared_type_follows_latest_declaration), ("C09-R5", r5_every_child_is_checked), ("C09-R6", r6_scope_of_a_declaration), ("C09-R7", r7_fixpoints_run_to_the_end), ("C09-R8", r8_static_tables_are_the_documented_ones)]
 
 EXPLANATION = (
     "R1: the accept/reject arms of check_expr are evaluated arm-by-arm (first-match semantics over name-resolved HIR patterns) "
@@ -765,6 +887,9 @@ EXPLANATION += (
 )
 EXPLANATION += (
     " R1c: the result-type table of infer_expr_type (640 cells, finite-domain partial evaluation) is single-valued and symmetric in its operands. R6 (= C04-R4c): the initialiser of a declaration is checked before the variable is declared."
+)
+EXPLANATION += (
+    " R1d: the inferred type of every operator cell the checker accepts is defined and is either dynamic or contains every kind the run-time routine can yield for operands of those static types (both tables read out of the code by partial evaluation; two genuine defects, D27/D28, were found and repaired). R7: every fixpoint flag in the resolver (return-type inference of mutually calling functions) is reset once per round and only raised with a constant. R8 (= C01-R5): the built-ins' name / arity / return-type tables the checker types method calls from equal the documented signatures."
 )
 ASSUMPTIONS = ["the reference predicates in rules/c09.py state the documented typing rules (docs/*.md plus the rule comments in resolver.rs)", "infer_expr_type yields the operand's static type"]
 TRUSTED = ["rustc nightly HIR name resolution and MIR", "nsx exporter", "nsverif pattern evaluator / partial evaluator"]
